@@ -10,11 +10,21 @@ def make_table_utility(I, table, null, mean, default=None):
     Utility = I["utility"].Utility
     UtilityResult = I["utility"].UtilityResult
     calls = []
+    bad = []
 
     class TableUtility(Utility):
         def __call__(self, X_train, y_train, X_test, y_test, metadata_train=None, metadata_test=None, null_score=None, seed=0):
             rows = frozenset(int(x) for x in np.asarray(X_train).reshape(-1).tolist())
             calls.append(rows)
+            # labels / metadata handed over must be those of exactly the same rows (fit_ids: y = row id, metadata = 1000 + row id)
+            if metadata_train is not None:
+                mrows = frozenset(int(x) - 1000 for x in np.asarray(metadata_train).reshape(-1).tolist())
+                if mrows != rows or len(np.asarray(metadata_train)) != len(np.asarray(X_train)):
+                    bad.append(("metadata_train", sorted(rows), sorted(mrows)))
+            if u.expect_ids:
+                yrows = frozenset(int(x) for x in np.asarray(y_train).reshape(-1).tolist())
+                if yrows != rows:
+                    bad.append(("y_train", sorted(rows), sorted(yrows)))
             out = table.get(rows, default)
             if out is None:
                 raise KeyError("table utility has no entry for %s" % sorted(rows))
@@ -37,7 +47,16 @@ def make_table_utility(I, table, null, mean, default=None):
             return float(mean)
     u = TableUtility()
     u.calls = calls
+    u.bad = bad
+    u.expect_ids = False
     return u
+
+
+def fit_ids(u, imp, X, prov):
+    """fit with labels = row ids and metadata = 1000 + row ids, so that the table utility can tell whose labels / metadata it is handed"""
+    u.expect_ids = True
+    n = len(X)
+    return imp.fit(X, np.arange(n, dtype=int), metadata=(1000 + np.arange(n, dtype=int)).reshape(-1, 1), provenance=prov)
 
 
 def rows_present(exprs, a):
